@@ -865,7 +865,7 @@ func (c *collector) base(r *rand.Rand, p profile, budget *int) {
 	for k := 0; k < n && *budget > 0; k++ {
 		sc := Scenario{Univ: u}
 		cur := st.Observe()
-		st.notes = nil
+		st.takeNotes()
 		if !wellFormed(u, cur) {
 			c.sum.Count("history-ended:inventory-in-missing-namespace")
 			break
@@ -899,6 +899,9 @@ func (c *collector) base(r *rand.Rand, p profile, budget *int) {
 		*budget--
 		c.count(sc, res)
 		h.Runs, h.Outs = append(h.Runs, sc), append(h.Outs, res.Out)
+		if res.Hung {
+			break // the store may still be in use by the run that did not finish
+		}
 		s := sc
 		prev = &s
 	}
@@ -912,7 +915,7 @@ func (c *collector) base(r *rand.Rand, p profile, budget *int) {
 // its own case: the initial cluster is the observed cluster before run k.
 func (c *collector) variants(r *rand.Rand, p profile, st *Store, h History, sc Scenario, probe RunResult, budget *int) {
 	start := st.Observe()
-	st.notes = nil
+	st.takeNotes()
 	var sets [][]FAddr
 	for _, a := range probe.Addrs {
 		sets = append(sets, []FAddr{a})
